@@ -68,10 +68,6 @@ func smartDateParseWrapper(format string, tz *time.Location, dateStage KeyBuilde
 		var atomicFormat atomic.Value
 		atomicFormat.Store("")
 
-		// What the argument yields on the empty context. The optimizer probes the stage with that value
-		// (eg. "2020-01-01 " for "2020-01-01 {0}"); it must never count as the first seen date
-		probeTime, probeStatic := EvalStaticStage(dateStage)
-
 		return KeyBuilderStage(func(context KeyBuilderContext) string {
 			strTime := dateStage(context)
 			if strTime == "" { // This is important for future optimization efforts (so an empty string won't be remembered as a valid format)
@@ -79,7 +75,10 @@ func smartDateParseWrapper(format string, tz *time.Location, dateStage KeyBuilde
 			}
 
 			liveFormat := atomicFormat.Load().(string)
-			isProbe := !probeStatic && strTime == probeTime
+			// A value seen while the stage is probed (EvalStaticStage, eg. by the optimizer) is parsed on its own
+			// and never counts as the first seen date: it can be any partial text, eg. "2020-01-01 " for
+			// "2020-01-01 {0}", also when it arrives through the arguments of a funcs-file function
+			isProbe := IsStaticProbe(context)
 			if liveFormat == "" || isProbe {
 				// This may end up run by a few different threads, but it comes at the benefit
 				// of not needing a mutex
